@@ -66,8 +66,10 @@ def Sq.truncate (s : Sq) (res : Int) (asOf hi : Int) : Sq :=
 def Sq.updateValue (x : Ext) (e : Ex) (res : Int) (s : Sq) (ts : Int) (p : Pt)
     (truncateBefore : Int) : Sq :=
   let ts := roundUp ts res
-  let until0 := s.until
-  let untl := if until0 = 0 then ts else until0
+  -- `until := seq.Until(); if until.IsZero() { until = ts }`
+  let untl : Int := match s with
+    | none => ts
+    | some q => if q.hi = 0 then ts else q.hi
   let tb := roundUntilUp truncateBefore res untl
   if ¬ (ts > tb) then s.truncate res tb 0
   else
